@@ -270,10 +270,9 @@ fn check(recs: &[Rec]) {
                     if nl.expires != now + TTL || &nl.chunks != chunks || nl.level != *level || nl.status != LeaseStatus::Active || nl.holder != format!("n{}", r.node) {
                         why = Some(format!("new lease has unexpected fields {:?}", nl));
                     }
-                    // model: remove expired actives (<= now), require no live overlap, insert
-                    let mut exp: LM = prev.clone();
-                    exp.retain(|_, l| !(l.status == LeaseStatus::Active && l.expires <= now));
-                    if let Some((id, l)) = exp.iter().find(|(_, l)| l.status == LeaseStatus::Active && l.expires > now && l.chunks.iter().any(|c| chunks.contains(c))) {
+                    // model: no live overlapping lease may exist at the acquirer's clock reading; leases may be
+                    // dropped only if they are no longer live (expired or terminal); everything else is unchanged
+                    if let Some((id, l)) = prev.iter().find(|(_, l)| l.status == LeaseStatus::Active && l.expires > now && l.chunks.iter().any(|c| chunks.contains(c))) {
                         why = Some(format!(
                             "acquire of {:?} succeeded although lease {} of {} on {:?} was live (expires +{}s after the acquirer's clock reading)",
                             chunks,
@@ -283,9 +282,20 @@ fn check(recs: &[Rec]) {
                             (l.expires - now) / SEC
                         ));
                     }
-                    exp.insert(new_ids[0].clone(), nl.clone());
-                    if why.is_none() && exp != got {
-                        why = Some(format!("version is not apply(acquire, previous): expected ids {:?}, got {:?}", exp.keys().map(|k| &k[..8]).collect::<Vec<_>>(), got.keys().map(|k| &k[..8]).collect::<Vec<_>>()));
+                    for (id, l) in &prev {
+                        match got.get(id) {
+                            Some(g) if g == l => {}
+                            Some(_) => {
+                                if why.is_none() {
+                                    why = Some(format!("acquire modified the unrelated lease {}", &id[..8]));
+                                }
+                            }
+                            None => {
+                                if l.status == LeaseStatus::Active && l.expires > now && why.is_none() {
+                                    why = Some(format!("acquire removed lease {} of {} which was still live (expires +{}s)", &id[..8], l.holder, (l.expires - now) / SEC));
+                                }
+                            }
+                        }
                     }
                 }
             }
@@ -321,23 +331,9 @@ fn check(recs: &[Rec]) {
                     why = Some("scavenge changed or added a lease".into());
                 }
                 let max_removed_active = removed.iter().filter(|l| l.status == LeaseStatus::Active).map(|l| l.expires).max();
-                let min_kept_active = got.values().filter(|l| l.status == LeaseStatus::Active).map(|l| l.expires).min();
-                if got.values().any(|l| l.status != LeaseStatus::Active) {
-                    why = Some("scavenge kept a terminal lease".into());
-                }
                 if let Some(mx) = max_removed_active {
                     if mx > t_put {
                         why = Some(format!("scavenge removed an active lease that expires {}s after the write", (mx - t_put) / SEC));
-                    }
-                    if let Some(mn) = min_kept_active {
-                        if mn <= mx {
-                            why = Some("scavenge removed a later-expiring lease but kept an earlier-expiring one".into());
-                        }
-                    }
-                }
-                if let Some(mn) = min_kept_active {
-                    if mn <= t_inv {
-                        why = Some("scavenge kept an active lease that had expired before the call".into());
                     }
                 }
             }
